@@ -6,7 +6,8 @@
 (***************************************************************************)
 EXTENDS PFM
 
-CONSTANTS TOKENS,    \* subset of {"TA","TB","TC","TD"}: what the user of A sends
+CONSTANTS TOKENS,    \* subset of {"TA","TB","TC","TD","TX"}: what the user of A sends (TX = TC that came over BX)
+          ROUTES,    \* subset of {"std","x","xb"}: links of the forward hops (BC,CD / BX,CD / BX,BC)
           DEPTHS,    \* subset of 1..3: number of hops (1 = no forwarding)
           AMTS, RETS, TOS,
           FINS,      \* subset of {"rcvr","bad"}: final receiver valid / invalid
@@ -15,7 +16,8 @@ CONSTANTS TOKENS,    \* subset of {"TA","TB","TC","TD"}: what the user of A send
 
 (***************************************************************************)
 (* Set-up: every chain's user holds 1000 of the chain's native token; half *)
-(* of TB, TC, TD is moved hop by hop to the user of A.                     *)
+(* of TB, TC, TD is moved hop by hop to the user of A; 300 more of TC go   *)
+(* to B over the second channel BX and on to A (token "TX").               *)
 (***************************************************************************)
 Genesis == [now |-> 0,
             bal |-> [k \in { <<"A", "user", Native("TA")>>, <<"B", "user", Native("TB")>>,
@@ -35,6 +37,7 @@ TokenDenom(tok) == CASE tok = "TA" -> Native("TA")
                      [] tok = "TB" -> [t |-> <<"AB@A">>, b |-> "TB"]
                      [] tok = "TC" -> [t |-> <<"AB@A", "BC@B">>, b |-> "TC"]
                      [] tok = "TD" -> [t |-> <<"AB@A", "BC@B", "CD@C">>, b |-> "TD"]
+                     [] tok = "TX" -> [t |-> <<"AB@A", "BX@B">>, b |-> "TC"]
 
 SetUp == LET s1 == Plain(Genesis, "B", "AB", Native("TB"), 500)
              s2 == Plain(s1, "C", "BC", Native("TC"), 500)
@@ -42,21 +45,29 @@ SetUp == LET s1 == Plain(Genesis, "B", "AB", Native("TB"), 500)
              s4 == Plain(s3, "D", "CD", Native("TD"), 500)
              s5 == Plain(s4, "C", "BC", [t |-> <<"CD@C">>, b |-> "TD"], 500)
              s6 == Plain(s5, "B", "AB", [t |-> <<"BC@B", "CD@C">>, b |-> "TD"], 500)
-         IN [s6 EXCEPT !.now = 1]
+             s7 == Plain(s6, "C", "BX", Native("TC"), 300)
+             s8 == Plain(s7, "B", "AB", [t |-> <<"BX@B">>, b |-> "TC"], 300)
+         IN [s8 EXCEPT !.now = 1]
 
 (***************************************************************************)
 (* Journeys                                                                *)
 (***************************************************************************)
-RouteLinks == <<"BC", "CD">>
+RouteLinks(route) == CASE route = "std" -> <<"BC", "CD">> [] route = "x" -> <<"BX", "CD">> [] route = "xb" -> <<"BX", "BC">>
 
-Memo(depth, fin, ret, to, badhop) ==
-    [i \in 1..(depth - 1) |-> [L |-> RouteLinks[i], rcv |-> IF i = depth - 1 THEN fin ELSE "pfm", to |-> to, ret |-> ret, chok |-> i # badhop]]
+Memo(route, depth, fin, ret, to, badhop) ==
+    [i \in 1..(depth - 1) |-> [L |-> RouteLinks(route)[i], rcv |-> IF i = depth - 1 THEN fin ELSE "pfm", to |-> to, ret |-> ret, chok |-> i # badhop]]
 
 Journeys == { [a |-> "Transfer", dt |-> 1, c |-> "A", L |-> "AB", d |-> TokenDenom(tok), amt |-> amt,
-               rcv |-> IF depth = 1 THEN fin ELSE "pfm", memo |-> Memo(depth, fin, ret, to, bh), exp |-> exp]
-              : tok \in TOKENS, depth \in DEPTHS, amt \in AMTS, fin \in FINS, ret \in RETS, to \in TOS, bh \in BADHOPS, exp \in EXPS }
+               rcv |-> IF depth = 1 THEN fin ELSE "pfm", memo |-> Memo(route, depth, fin, ret, to, bh), exp |-> exp]
+              : tok \in TOKENS, route \in ROUTES, depth \in DEPTHS, amt \in AMTS, fin \in FINS, ret \in RETS, to \in TOS, bh \in BADHOPS, exp \in EXPS }
 
-FinalChain(j) == CASE Len(j.memo) = 0 -> "B" [] Len(j.memo) = 1 -> "C" [] Len(j.memo) = 2 -> "D"
+\* the chain the last hop of the journey delivers to: B, then along the links of the memo
+RECURSIVE Along(_, _)
+Along(c, memo) == IF memo = <<>> THEN c ELSE Along(Other(Head(memo).L, c), Tail(memo))
+FinalChain(j) == Along("B", j.memo)
+
+\* the forwarded token on chain c (sent over P.L, original packet arrived over Q.L) is a voucher that came over a THIRD channel
+ThirdChannel(c, P, Q) == Len(P.d.t) >= 1 /\ ~HasPrefix(P.d, End(P.L, c)) /\ ~HasPrefix(P.d, End(Q.L, c))
 
 (***************************************************************************)
 (* Relayer                                                                 *)
